@@ -129,12 +129,12 @@ Theorem C12_sequence_renumbering_label_invariant :
 Proof. exact sequence_renumbering_label_invariant. Qed.
 Print Assumptions C12_sequence_renumbering_label_invariant.
 
-(* id() reuse (known finding): a non-injective labelling merges two sequences *)
-Theorem C12_sequence_renumbering_collision_refuted :
-  exists (f : N -> N) base attrs,
-    reset_sequence_numbers base (map (option_map f) attrs) <> reset_sequence_numbers base attrs.
-Proof. exact sequence_renumbering_collision_refuted. Qed.
-Print Assumptions C12_sequence_renumbering_collision_refuted.
+(* The injectivity hypothesis is met by construction since /repo ec91b39: the labels are id()
+   values of objects (compositors of the parsed schemas, kept in ResourceTransformer.parsed;
+   attrs of living classes) that are all alive while the classes are analysed, and CPython gives
+   simultaneously living objects distinct ids.  (That the hypothesis cannot be dropped is
+   Proofs.GraphMisc.sequence_renumbering_collision_refuted; the check keeps the 2 x 150 groups
+   witness as a regression test.) *)
 
 (* 6. imports: sorted by name, a permutation of the input, unique *)
 Theorem C12_imports_sorted_unique :
